@@ -10,11 +10,14 @@ RULE = ("harness c13: (i) 13200+op: node-by-node dump of the COMPILED tables (ca
         "checker re-run on the dumped tables by the oracle; (ii) 13000+op: 40 (a,b) pairs per record (boundary "
         "dictionary x shift amounts, then random mixes), compiled table evaluated in plain bool with eval_level's "
         "two-buffer slot discipline vs the model's eval_stale on the generated tables, oracle = plain word operation; "
-        "(iii) 13100+op: bulk comparison inside the harness against the native Rust word operation. "
+        "(iii) 13100+op: bulk comparison inside the harness against the native Rust word operation; "
+        "(iv) 13300+op: one real homomorphic evaluation per two-word circuit through the crate's public test_suite "
+        "(ties Cmux(hi,lo) orientation and input-bit numbering to the real cmux / FheUintHelper). "
         "distinct = distinct (op, inputs) lines")
 ASSUMPTIONS = [
     "a occupies input bits [0,32), b bits [32,64) (FheUintHelper::get_bit); identity reads a only",
-    "the homomorphic cmux implements (hi - lo) * bit + lo (C15/C04 territory); here the evaluator is modelled on plain bits",
+    "the homomorphic cmux implements (hi - lo) * bit + lo (C15/C04 territory); here the evaluator is modelled on plain bits "
+    "(one homomorphic evaluation per circuit is run through the crate's public test suite as a sanity tie)",
     "output bits >= OUTPUT_BITS (slt/sltu: bits 1..31) are the zero the evaluator writes for them",
 ]
 TRUSTED = [
